@@ -331,6 +331,10 @@ def walks(ctx, num, depth, ncommits):
     nw = 4
     res = tlc.run("Accel.tla", cfg, workers=nw, timeout=600, simulate=f"file={d}/t,num={max(1, num // nw)}", depth=depth,
                   seed=ctx.seed + 1)
+    import re as _re
+    m = _re.search(r"Progress: (\d+) states checked", res.output)
+    if m:                                   # simulation mode prints its own statistics
+        res.generated = res.distinct = int(m.group(1))
     ctx.add_tlc(f"Accel simulate (N={ncommits}, depth {depth}: Transparent, RefsTransparent, StaleRejected on every state)", res)
     jobs = []
     for k, fn in enumerate(sorted(x for x in os.listdir(d) if x.startswith("t_"))):
@@ -390,10 +394,10 @@ def run(ctx):
                          coverage=not ctx.quick)
     futs = defect_runs(ctx, pool)
     t0 = os.times()
-    budget = int(os.environ.get("C14_BUDGET", ctx.pick(5000, 150000)))       # (C14_BUDGET: debugging aid)
+    budget = int(os.environ.get("C14_BUDGET", ctx.pick(5000, 50000)))       # (C14_BUDGET: debugging aid)
     records = replay_graph(ctx, ctx.pick("Accel_mc.cfg", "Accel_mc5.cfg"), budget, ctx.pick("depth 4", "depth 5"))
     defect_replays(ctx, futs)
-    wtraces, wmeta = walks(ctx, ctx.pick(40, 1500), ctx.pick(12, 16), ctx.pick(5, 6))
+    wtraces, wmeta = walks(ctx, ctx.pick(40, 800), ctx.pick(12, 16), ctx.pick(5, 6))
     t1 = os.times()
     ctx.cov["replay_cpu_s"] = round((t1.children_user + t1.children_system + t1.user + t1.system)
                                     - (t0.children_user + t0.children_system + t0.user + t0.system), 1)
